@@ -125,3 +125,5 @@ func (d *connDriver) collect() (pkts []model.Packet, rest []byte, closed bool, e
 	d.seen = len(all) - len(rest)
 	return pkts, rest, d.c.Closed(), nil
 }
+
+func timeAfter(d time.Duration) <-chan time.Time { return time.After(d) }
